@@ -2478,6 +2478,7 @@ coap_handle_request_send_block(coap_session_t *session,
                                            coap_opt_length(etag_opt));
     if (etag != lg_xmit->b.b2.etag) {
       /* Not a match - pass up to a higher level */
+      coap_free_type(COAP_STRING, out_blocks);
       return 0;
     }
     out_pdu->code = COAP_RESPONSE_CODE(203);
